@@ -84,6 +84,26 @@ package alpine
 //@ lemma c20-equal [C20]: forall c *constraint, v1, v2 *Version, ecosystem *Ecosystem :: trigger(satisfiesConstraint(v1, c, ecosystem), satisfiesConstraint(v2, c, ecosystem)) && c != nil && ecosystem != nil && v1 != nil && v2 != nil && (c.operator == "=" || c.operator == "!=" || c.operator == "<" || c.operator == "<=" || c.operator == ">" || c.operator == ">=") && v1.Compare(v2) == 0 ==> satisfiesConstraint(v1, c, ecosystem) == satisfiesConstraint(v2, c, ecosystem)
 //@ lemma c20-convex [C20]: forall c *constraint, a, b, d *Version, ecosystem *Ecosystem :: trigger(satisfiesConstraint(a, c, ecosystem), satisfiesConstraint(d, c, ecosystem), a.Compare(b), b.Compare(d)) && c != nil && ecosystem != nil && a != nil && b != nil && d != nil && (c.operator == "=" || c.operator == "!=" || c.operator == "<" || c.operator == "<=" || c.operator == ">" || c.operator == ">=") && c.operator != "!=" && a.Compare(b) <= 0 && b.Compare(d) <= 0 && satisfiesConstraint(a, c, ecosystem) && satisfiesConstraint(d, c, ecosystem) ==> satisfiesConstraint(b, c, ecosystem)
 
+// ---- range text to constraints (C02): an operator directly before a valid version; the list separator means AND
+
+//@ func parseConstraint
+//@   ensures xor: (result0 != nil) == (result1 == nil)
+//@   ensures op>=: strings.HasPrefix(strings.TrimSpace(constraintStr), ">=") && result1 == nil ==> result0.operator == ">=" && result0.version == strings.TrimSpace(strings.TrimSpace(constraintStr)[2:])   [C02]
+//@   ensures accepts>=: strings.HasPrefix(strings.TrimSpace(constraintStr), ">=") && strings.TrimSpace(strings.TrimSpace(constraintStr)[2:]) != "" ==> result1 == nil   [C02]
+//@   ensures op<=: strings.HasPrefix(strings.TrimSpace(constraintStr), "<=") && result1 == nil ==> result0.operator == "<=" && result0.version == strings.TrimSpace(strings.TrimSpace(constraintStr)[2:])   [C02]
+//@   ensures accepts<=: strings.HasPrefix(strings.TrimSpace(constraintStr), "<=") && strings.TrimSpace(strings.TrimSpace(constraintStr)[2:]) != "" ==> result1 == nil   [C02]
+//@   ensures op!=: strings.HasPrefix(strings.TrimSpace(constraintStr), "!=") && result1 == nil ==> result0.operator == "!=" && result0.version == strings.TrimSpace(strings.TrimSpace(constraintStr)[2:])   [C02]
+//@   ensures accepts!=: strings.HasPrefix(strings.TrimSpace(constraintStr), "!=") && strings.TrimSpace(strings.TrimSpace(constraintStr)[2:]) != "" ==> result1 == nil   [C02]
+//@   ensures op>: strings.HasPrefix(strings.TrimSpace(constraintStr), ">") && !strings.HasPrefix(strings.TrimSpace(constraintStr), ">=") && result1 == nil ==> result0.operator == ">" && result0.version == strings.TrimSpace(strings.TrimSpace(constraintStr)[1:])   [C02]
+//@   ensures accepts>: strings.HasPrefix(strings.TrimSpace(constraintStr), ">") && !strings.HasPrefix(strings.TrimSpace(constraintStr), ">=") && strings.TrimSpace(strings.TrimSpace(constraintStr)[1:]) != "" ==> result1 == nil   [C02]
+//@   ensures op<: strings.HasPrefix(strings.TrimSpace(constraintStr), "<") && !strings.HasPrefix(strings.TrimSpace(constraintStr), "<=") && result1 == nil ==> result0.operator == "<" && result0.version == strings.TrimSpace(strings.TrimSpace(constraintStr)[1:])   [C02]
+//@   ensures accepts<: strings.HasPrefix(strings.TrimSpace(constraintStr), "<") && !strings.HasPrefix(strings.TrimSpace(constraintStr), "<=") && strings.TrimSpace(strings.TrimSpace(constraintStr)[1:]) != "" ==> result1 == nil   [C02]
+//@   ensures op=: strings.HasPrefix(strings.TrimSpace(constraintStr), "=") && result1 == nil ==> result0.operator == "=" && result0.version == strings.TrimSpace(strings.TrimSpace(constraintStr)[1:])   [C02]
+//@   ensures accepts=: strings.HasPrefix(strings.TrimSpace(constraintStr), "=") && strings.TrimSpace(strings.TrimSpace(constraintStr)[1:]) != "" ==> result1 == nil   [C02]
+
+//@ func parseConstraints
+//@   loop 1 invariant (forall j int :: 0 <= j && j <= rangeindex ==> strings.TrimSpace(parts[j]) != "") ==> len(constraints) == rangeindex + 1 && (forall j int :: 0 <= j && j <= rangeindex ==> constraints[j] == parseConstraint(strings.TrimSpace(parts[j])).0)
+//@   ensures and-list: (forall j int :: 0 <= j && j < len(strings.Fields(rangeStr)) ==> strings.TrimSpace(strings.Fields(rangeStr)[j]) != "") && result1 == nil ==> len(result0) == len(strings.Fields(rangeStr)) && (forall j int :: 0 <= j && j < len(result0) ==> result0[j] == parseConstraint(strings.TrimSpace(strings.Fields(rangeStr)[j])).0)   [C02]
 
 // ---- stored text (C18)
 
